@@ -114,6 +114,12 @@ static void run_case(Ctx& c, uint64_t idx) {
     if (idx % 10 == 0) { eW->unescape_checks(c, s); eA->escape_checks(c, s); }
     if (idx % 9000 == 2) c.sample("string", esc(s));
 }
-static Monitor mon = {"escape", "C16: percent-escaping / in-place unescaping vs models, documented bounds against fences", "C16", ncases, run_case, nullptr};
+static void fuzz_one(Ctx& c, const unsigned char* d, size_t n) {
+    if (!eA) { eA = new Esc<ApiA>(); eW = new Esc<ApiW>(); }
+    if (n > 300) n = 300; Str s((const char*)d, n); for (auto& ch : s) if (!ch) ch = '0';
+    c.distinct(hash_str(s));
+    if (n & 1) { eW->escape_checks(c, s); eW->unescape_checks(c, s); } else { eA->escape_checks(c, s); eA->unescape_checks(c, s); }
+}
+static Monitor mon = {"escape", "C16: percent-escaping / in-place unescaping vs models, documented bounds against fences", "C16", ncases, run_case, nullptr, fuzz_one};
 VF_REGISTER(mon);
 }
